@@ -284,13 +284,39 @@ def _run_own(ck):
         ck.ob3('R-BOUNDS-validate', key + '/validated-before-use', okq, ck.site(key), msgq, sample={'outcomes': (sampleq or {}).get('outcomes')})
         ck.ob3('R-BOUNDS-validate', key + '/accepts-broadcast-and-exact-length', okq, ck.site(key), msgq)
     for key, want in ((SIM + 'parse_bit_string', {'0': 'false', '1': 'true'}), (SIM + 'parse_pauli_string', {'I': 'I', 'X': 'X', 'Y': 'Y', 'Z': 'Z'})):
+        ck.fn(key)
+        # (round 2) decided by evaluating the parser on every string of length <= 2 over its alphabet (both cases) plus two foreign characters
+        try:
+            import itertools
+            from .. import minirust as _mr
+            alpha = [c for k_ in want for c in (k_, k_.lower())] + ['2', 'q']
+            bad = None
+            nstr = 0
+            for L in range(0, 3):
+                for tup in itertools.product(sorted(set(alpha)), repeat=L):
+                    s_ = ''.join(tup)
+                    it = _mr.Interp(fuel=20000, facts=facts, inline=lambda c: c.startswith('cli::sim::'))
+                    got = it.local_call(key, [s_])
+                    nstr += 1
+                    exp = [want.get(c.upper()) for c in s_]
+                    if None in exp:
+                        okp = isinstance(got, tuple) and got and got[0] == 'Err'
+                    else:
+                        vals = got[1] if (isinstance(got, tuple) and got and got[0] == 'Ok') else None
+                        okp = vals is not None and [('true' if v is True else 'false' if v is False else str(v[1]).rsplit('::', 1)[-1] if isinstance(v, tuple) else '?') for v in vals] == exp
+                    if not okp and bad is None:
+                        bad = 'the string %r parses to %s' % (s_, got)
+            ck.ob('R-TABLE-parse', key, bad is None, ck.site(key), '%s; expected %s (case-insensitive), every other character an error' % (bad, want), sample={'strings': nstr})
+            continue
+        except (_mr.NoEval, _mr.Proceed, TypeError, KeyError, IndexError, AttributeError, ValueError) as ex:
+            ck.note('%s: the evaluator declined (%s); syntactic table used, positive matches only' % (key, ex))
         r = parser_table(ck.fn(key))
         if r is None:
             ck.violation('R-TABLE-parse', key + '/shape', ck.site(key), 'anchor-missing')
             continue
         tbl, derr, upper = r
         got = {k: v.rsplit('::', 1)[-1] for k, v in tbl.items()}
-        ck.ob('R-TABLE-parse', key, got == want and derr, ck.site(key), 'parser table %s (default Err: %s), expected %s with every other character an error' % (got, derr, want), sample={'table': got})
+        ck.ob3('R-TABLE-parse', key, True if (got == want and derr) else None, ck.site(key), 'the parser is not evaluable and its table was read as %s (default Err: %s), expected %s with every other character an error' % (got, derr, want), sample={'table': got})
     # ---- D3
     af = ck.fn(SIM + 'amplitude')
     ok = False
